@@ -365,6 +365,12 @@ def eng_zerovalue(pid, tier, wd, known, replay=None):
 
 import engprog
 import clieng
+import formeng
+import probeeng
+eng_copyprobe = probeeng.eng_copyprobe
+eng_valuetable = probeeng.eng_valuetable
+eng_copydecls = probeeng.eng_copydecls
+eng_forms = formeng.eng_forms
 eng_cli = clieng.eng_cli
 engprog.props_oracle_core = oracle_core
 eng_prog = engprog.eng_prog
@@ -387,17 +393,26 @@ PROPS = {
     "C09": {"theorems": ["C09_results", "C09_rejects", "C09_identical_types_rejected"], "engines": [eng_funcoutput, eng_prog],
             "assumptions": ["result kinds are abstracted to what funcOutput can distinguish (identity with error / func())"]},
     "C10": {"theorems": ["C10_phase_order_independent", "C05_never_picks"], "engines": [eng_synth, eng_prog], "assumptions": [SYNTH_NOTE]},
-    "C11": {"theorems": ["C11_colocated"], "engines": [eng_synth, eng_prog], "assumptions": [SYNTH_NOTE, "Go's method-set rule (types.Implements) is go/types' and is not modelled"]},
+    "C11": {"theorems": ["C11_colocated"], "engines": [eng_synth, eng_prog, eng_forms], "assumptions": [SYNTH_NOTE, "Go's method-set rule (types.Implements) is go/types' and is not modelled"]},
     "C12": {"theorems": ["C12_check_field_sound", "C12_star_selects_unprevented", "C12_struct_provider_outputs"], "engines": [eng_prog],
             "assumptions": ["field names are ASCII; strconv.Quote and strings.EqualFold are modelled on ASCII identifiers", "FieldsOf name resolution shares checkField; its front end is exercised through the binary only"]},
+    "C13": {"theorems": ["C13_whitelist_sound", "C13_whitelist_complete"], "engines": [eng_valuetable, eng_forms, eng_copyprobe, eng_prog],
+            "assumptions": ["expression trees are abstracted to the node kinds processValue distinguishes; the mapping from Go syntax to kinds is the table's (hand-written per form)",
+                            "evaluation once at package initialisation is Go's semantics of package-level variables, not modelled"]},
     "C14": {"theorems": ["C14_disambiguate_fresh", "C01_one_implementation"], "engines": [eng_prog],
             "assumptions": ["identifiers are ASCII in the model; non-ASCII names are outside the generated corpus"]},
+    "C15": {"theorems": ["C15_copy_identity", "C15_missing_field_is_lost"], "engines": [eng_copyprobe, eng_copydecls],
+            "assumptions": ["partial: the capture-avoiding renaming of rewritePkgRefs is exercised by the declaration corpus (structure + behaviour), not modelled in Coq",
+                            "go/printer prints what copyAST returns; not modelled"]},
     "C17": {"theorems": ["C17_gen_exit", "C17_gen_footprint", "C17_failed_package_untouched", "C17_failure_does_not_block_others", "C17_diff_readonly", "C17_diff_exit"],
             "engines": [eng_cli], "assumptions": ["partial: OS write semantics are modelled as whole-file replace, tied by before/after tree hashes", "per-package Generate results are inputs of the command model"]},
     "C18": {"theorems": ["C18_history_independent", "C18_failed_gen_untouched", "C17_diff_readonly"], "engines": [eng_cli],
             "assumptions": ["partial: that analysis is a function of the current sources (files constrained !wireinject are invisible under -tags=wireinject) is the section hypothesis content_of; it is exactly what the histories test against the binary"]},
     "C19": {"theorems": ["C19_check_iff_gen", "C05_never_picks"], "engines": [eng_cli, eng_prog],
             "assumptions": ["the `show` grouping is checked on the binary's output against the property's wording, its stack machine (gather) is not modelled in Coq"]},
+    "C20": {"theorems": ["C09_results", "C12_check_field_sound", "C07_terminates"], "engines": [eng_forms, eng_zerovalue, eng_funcoutput],
+            "assumptions": ["partial: the front end's pattern recognition of marker-call arguments is not modelled in Coq; the crash-freedom claim for it rests on the enumerated spellings through the binary",
+                            "proved parts: the modelled rules (funcOutput, field selection, cycle check) are total functions; zeroValue is total over the regenerated kind table"]},
 }
 
 HOOK_COMMITS = ["fc0854c"]
